@@ -11,6 +11,17 @@ CLAIMED = {
          "tlsx is mirrored, not verified; MD5 is a parameter; crypto/tls acceptance assumed to imply well-formedness"),
    technique="Lean 4 theorem over regenerated table + model/implementation differential with spec oracle",
    design='7/C01'),
+ 'C03': dict(
+   text=("Proof (Lean 4): for every history of delivered frames and every limit n, Marshal applied to what the capture blocks of "
+         "processFrame accumulate equals the specification S|WU|P|PS (latest non-ACK SETTINGS, first WINDOW_UPDATE, all priorities "
+         "in order cut to n, pseudo letters of the latest block) and always has exactly four '|'-parts; Marshal's literals are "
+         "regenerated from the source; model tied to the real serverConn (deterministic tester, metadata context) and to Marshal "
+         "by exact differentials"),
+   note=("Trusted: Lean kernel + standard axioms; translator; harnesses (upstream serverTester as driver). Hypotheses: delivered "
+         "WINDOW_UPDATE increments are non-zero and delivered header blocks passed checkPseudos (framer facts, C19); %d/%02d "
+         "modelled by own functions. The instant at which a concurrent handler reads the record is C07's subject"),
+   technique="Lean 4 theorem (fold of capture = spec extraction; rendering lemmas) + function-level and server-level differential",
+   design='7/C03'),
  'C04': dict(
    text=("Proof (Lean 4): for every segmentation of every byte stream, the state of the capture wrapper is a function of the "
          "bytes delivered only, and GetClientHello reports exactly the first TLS record or nothing (capture_exact, "
